@@ -64,6 +64,10 @@ Definition WriteByteBlock (p : sha) : sha :=
 Definition reset (p : sha) : sha := {| state := gen_H0; count := 0; buffer := buffer p |}.
 Definition init : sha := {| state := gen_H0; count := 0; buffer := repeat 0 64 |}.
 
+(* not a member function: what the correspondence harness does with its one white-box op `setcount` - the 64-bit
+   counter is overwritten, the state words and the block buffer stay (see finalize_from_any_state) *)
+Definition set_count (p : sha) (c : Z) : sha := {| state := state p; count := w64 c; buffer := buffer p |}.
+
 (* update: curBufferPos is computed once and carried *)
 Definition update_byte (pp : sha * Z) (b : Z) : sha * Z :=
   let '(p, pos) := pp in
